@@ -72,8 +72,10 @@ def postcheck_cases(rng, n):
             r = rng.random()
             if r < 0.65:
                 ops.append(["set", k, rng.randrange(len(POSTCHECK_BAD))])
-            elif r < 0.85:
+            elif r < 0.8:
                 ops.append(["set-valid", k])
+            elif r < 0.9:
+                ops.append(["del", k])       # item deletion: of a set field, of an unset / explicitly-None one
             else:
                 ops.append(["set", k, POSTCHECK_BAD.index(None)])
         out.append({"suite": "postcheck", "kinds": kinds, "ops": ops, "undefined": rng.random() < 0.4,
@@ -105,15 +107,18 @@ def run_postcheck(case):
     steps = []
     for op in case["ops"]:
         name = f"f{op[1]}"
-        v = POSTCHECK_BAD[op[2]] if op[0] == "set" else other_valid[case["kinds"][op[1]]]
+        v = None if op[0] == "del" else POSTCHECK_BAD[op[2]] if op[0] == "set" else other_valid[case["kinds"][op[1]]]
         before = snap()
         try:
-            setattr(x, name, v)
+            if op[0] == "del":
+                del x[name]
+            else:
+                setattr(x, name, v)
             out = "ok"
         except Exception as e:
-            out = type(e).__name__ if not isinstance(e, (TypeError, ValueError)) else ("TypeError" if isinstance(e, TypeError) and not isinstance(e, ValueError) else "ValueError")
+            out = "KeyError" if isinstance(e, KeyError) and op[0] == "del" else type(e).__name__ if not isinstance(e, (TypeError, ValueError)) else ("TypeError" if isinstance(e, TypeError) and not isinstance(e, ValueError) else "ValueError")
         after = snap()
-        steps.append({"kind": case["kinds"][op[1]], "v": repr(v)[:40], "out": out, "changed": before != after,
+        steps.append({"kind": case["kinds"][op[1]] + (":del" if op[0] == "del" else ""), "v": repr(v)[:40], "out": out, "changed": before != after,
                       "before": before[0][:200], "after": after[0][:200]})
     return {"steps": steps}
 
@@ -122,9 +127,9 @@ def judge_postcheck(case, impl):
     fails = []
     for st in impl.get("steps", []):
         if st["out"] != "ok" and st["changed"]:
-            fails.append((f"not-atomic:setattr:{st['kind']}", f"assigning {st['v']} to a {st['kind']} field raised {st['out']} but changed the instance: "
+            fails.append((f"not-atomic:{'delitem' if st['kind'].endswith(':del') else 'setattr'}:{st['kind']}", f"assigning {st['v']} to a {st['kind']} field raised {st['out']} but changed the instance: "
                           f"{st['before']} -> {st['after']}"))
-        if st["out"] not in ("ok", "TypeError", "ValueError"):
+        if st["out"] not in ("ok", "TypeError", "ValueError") and not (st["out"] == "KeyError" and st["kind"].endswith(":del")):
             fails.append((f"error-class:setattr:{st['kind']}:{st['out']}", f"assigning {st['v']} to a {st['kind']} field raised {st['out']}"))
     return fails
 
